@@ -212,7 +212,7 @@ func checkC20Text(c caseText) (Outcome, error) {
 		return out, fmt.Errorf("not well-formed JSON: %v\n%s", err, quoteShort(res.Out))
 	}
 	root, ok := v.(*model.JObject)
-	if !ok || len(root.Keys) != 2 {
+	if !ok {
 		return out, fmt.Errorf("unexpected top level")
 	}
 	rv, _ := root.Get("records")
